@@ -238,7 +238,41 @@ def _empty_table(backend):
     return obs, (len(log) == 1 and log[0]["rows"] == 0 and len(dict(res)) == 0)
 
 
+def _edited_metrics(backend, seed):
+    """an Experiment whose (public) metrics dict is edited between two analyses - a row-level metric removed - fetches, the
+    second time, what a fresh Experiment with the remaining metrics fetches"""
+    import random
+    import tea_tasting as tt
+    rng = random.Random(seed)
+    data = expx.rand_data(rng, [0, 1], [6, 9])
+    mk = lambda: {"m": tt.Mean("x"), "q": tt.Quantile("y", 0.5, n_resamples=5, random_state=1), "r": tt.RatioOfMeans("z", "w")}
+    shape = lambda log: [(f["rows"], sorted(f["columns"])) for f in log]
+    try:
+        tab = B.make_table(backend, data)
+        exp = tt.Experiment(mk())
+        with B.fetch_counters() as log0:
+            exp.analyze(tab)
+        del exp.metrics["q"]
+        with B.fetch_counters() as log1:
+            exp.analyze(tab)
+        rest = mk()
+        del rest["q"]
+        with B.fetch_counters() as log2:
+            tt.Experiment(rest).analyze(tab)
+    finally:
+        B.cleanup()
+    return shape(log1), shape(log2), shape(log1) == shape(log2)
+
+
 def wide_oracle(ctx):
+    for backend in B.LAZY_KINDS:
+        seed = ctx.rng.randint(0, 10**6)
+        got, want, ok = _edited_metrics(backend, seed)
+        ctx.evaluations += 1
+        ctx.count("oracle:edited-metrics")
+        if not ok:
+            ctx.violations.append({"what": "after removing a row-level metric the experiment still fetches as before", "detail": f"{got} != {want}",
+                                   "input": {"edited_metrics": True, "backend": backend, "seed": seed}})
     for backend in B.LAZY_KINDS:
         obs, ok = _empty_table(backend)
         ctx.evaluations += 1
@@ -270,6 +304,9 @@ def wide_oracle(ctx):
 
 def replay(ctx, rp):
     case = rp["input"]
+    if case.get("edited_metrics"):
+        got, want, ok = _edited_metrics(case["backend"], case["seed"])
+        return {"fails": not ok, "observed": got, "expected": want}
     if case.get("empty_table"):
         obs, ok = _empty_table(case["backend"])
         return {"fails": not ok, "observed": obs}
